@@ -75,7 +75,9 @@ def gen_spec(rng, *, random_units=True, sl_bias=0.35, rules=None, currents=None,
             kinds.append('wormrev')
         kind = rng.choice(kinds)
         if want_sl and not sl_done and st == sl_stage:
-            kind = 'worm'
+            # the self-locking stage: the worm drives the wheel, or (reversed drive) a wheel with a steeper helix
+            # drives a self-locking worm
+            kind = 'worm' if (rng.random() < 0.75 or not allow_rev_worm) else 'wormrev'
         if kind == 'fly':
             i = add({'type': 'fly', 'J': J()})
             rels.append(['joint', prev, i])
@@ -144,9 +146,16 @@ def gen_spec(rng, *, random_units=True, sl_bias=0.35, rules=None, currents=None,
             h = rng.uniform(min(12, mx - 1), mx - 0.5)
             f = rng.uniform(0, 0.15)
             hu = in_unit(rng, 'Angle', h * math.pi / 180, ru)
+            hworm = list(hu)
+            if want_sl and not sl_done and st == sl_stage:
+                hg = rng.uniform(2, 6)
+                ca = math.cos(pa * math.pi / 180)
+                f = rng.uniform(ca * math.tan(hg * math.pi / 180) * 1.1, min(ca * math.tan(h * math.pi / 180) * 0.9, 1.0))
+                hworm = in_unit(rng, 'Angle', hg * math.pi / 180, ru)
+                sl_done = True
             wheel = {'type': 'wormwheel', 'z': rng.randint(10, 40), 'J': J(), 'helix': hu, 'pa': list(pau),
                      **gear_opt(None, with_E=False)}
-            worm = {'type': 'wormgear', 'starts': rng.randint(1, 3), 'J': J(), 'helix': list(hu), 'pa': list(pau),
+            worm = {'type': 'wormgear', 'starts': rng.randint(1, 3), 'J': J(), 'helix': hworm, 'pa': list(pau),
                     'd': in_unit(rng, 'Length', rng.choice([10, 16, 20]) * 1e-3, ru) if rng.random() < optional_data else None}
             # a gear attached by a fixed joint only has no mating role: tooth forces cannot be computed for it
             g = {'type': 'spur', 'z': rng.randint(10, 60), 'J': J(), 'module': None, 'fw': None, 'E': None}
@@ -170,6 +179,9 @@ def gen_spec(rng, *, random_units=True, sl_bias=0.35, rules=None, currents=None,
                      'speed': in_unit(rng, 'AngularSpeed', dy(rng, -3, 3), ru)},
             'rules': None, 'ops': []}
     angle_init(rng, spec['init'])
+    if ru and rng.random() < 0.12:
+        # the load callback converts (some of) its arguments in place to its favourite units
+        spec['load']['inplace'] = [rng.choice([None, 'rad', 'deg']), rng.choice([None, 'rad/s', 'rpm']), rng.choice(['sec', 'sec', 'ms', None])]
     return spec
 
 
